@@ -53,6 +53,7 @@ func (s *c11server) st(c *core.Conn) *c11conn { return c.ServerData.(*c11conn) }
 
 func (s *c11server) OnAccept(c *core.Conn) {
 	c.ServerData = &c11conn{}
+	c.RecordWire = true
 	ci := c.Host.Index
 	if s.conns[ci] == nil {
 		s.conns[ci] = c
@@ -77,7 +78,7 @@ func (s *c11server) OnBytes(c *core.Conn, b []byte) {
 		sess, err := s.key.Handshake(st.hsBuf[:256])
 		if err != nil {
 			st.hsErr = err
-			s.w.Logf("server: handshake rejected conn=%d: %v", c.ID, err)
+			s.w.Logf("server: handshake rejected conn=%s: %v", c.Name, err)
 			c.ServerClose(0)
 			return
 		}
@@ -115,13 +116,13 @@ func (s *c11server) OnBytes(c *core.Conn, b []byte) {
 	}
 	if err != nil {
 		st.frErr = err
-		s.w.Logf("server: framing error conn=%d: %v", c.ID, err)
+		s.w.Logf("server: framing error conn=%s: %v", c.Name, err)
 		c.ServerClose(0)
 	}
 }
 
 func (s *c11server) nonce(c *core.Conn, k int) (n [32]byte) {
-	h := sha256.Sum256([]byte(fmt.Sprintf("nonce-%d-%d", c.ID, k)))
+	h := sha256.Sum256([]byte(fmt.Sprintf("nonce-%s-%d", c.Name, k)))
 	return h
 }
 
@@ -266,6 +267,7 @@ func execC11(t *testing.T, w *core.World, p *run.Plan, r *run.Result) {
 		}
 		w.At(time.Duration(ci)*time.Microsecond, fmt.Sprintf("connect %d", ci), func() {
 			go func() {
+				w.Tag(fmt.Sprintf("client-%d", ci))
 				conn, err := liteclient.NewConnection(context.Background(), srv.key.Pub, fmt.Sprintf("sim:%d", ci))
 				cl.mu.Lock()
 				cl.conn, cl.connErr, cl.returned = conn, err, true
@@ -275,6 +277,7 @@ func execC11(t *testing.T, w *core.World, p *run.Plan, r *run.Result) {
 					return
 				}
 				go func() {
+					w.Tag(fmt.Sprintf("client-%d-rx", ci))
 					for pk := range conn.Responses() {
 						cl.mu.Lock()
 						cl.got = append(cl.got, append([]byte{}, pk.Payload...))
@@ -393,6 +396,22 @@ func execC11(t *testing.T, w *core.World, p *run.Plan, r *run.Result) {
 				if st.badPing != "" {
 					w.Violate("C11.b-ping", "C11.b|none|ping", st.badPing)
 				}
+				if ref, _ := st.sess.ReferenceReceiver().Feed(c.Wire[core.S2C]); true {
+					var exp [][]byte
+					for _, s := range sentBy[ci] {
+						if s.raw {
+							break
+						}
+						exp = append(exp, s.payload)
+					}
+					refp := [][]byte{}
+					if len(ref) > 0 {
+						refp = nonPong(ref[1:])
+					}
+					if d := seqDiff(exp, refp); d != "" {
+						w.Violate("harness-selfcheck", "harness-selfcheck|ref-nofault", "reference receiver disagrees with the send script: "+d)
+					}
+				}
 				var want [][]byte
 				cut := false
 				for _, s := range sentBy[ci] {
@@ -412,44 +431,40 @@ func execC11(t *testing.T, w *core.World, p *run.Plan, r *run.Result) {
 				}
 			}
 		} else if f.Dir == core.S2C {
-			// (d) frames wholly before the altered one are delivered, the altered one and all later ones never
-			if f.Frame == 0 && cl.returned && cl.connErr == nil {
+			// (d) differential against a reference receiver fed with the bytes actually delivered:
+			// it yields every frame that arrives unaltered before the first altered byte and nothing
+			// from the altered frame on. The client must deliver exactly that.
+			var ref [][]byte
+			if st != nil && st.sess != nil {
+				ref, _ = st.sess.ReferenceReceiver().Feed(c.Wire[core.S2C])
+			}
+			accepted := cl.returned && cl.connErr == nil
+			if len(ref) == 0 && accepted {
 				w.Violate("C11.d-handshake", "C11.d|"+tag+"|hs-accepted", fmt.Sprintf("client %d accepted an altered handshake confirmation", ci))
 			}
+			if len(ref) > 0 && !accepted {
+				w.Violate("C11.a-handshake", "C11.a|"+tag, fmt.Sprintf("client %d: confirmation frame arrived intact (fault is later in the stream) but NewConnection returned=%v err=%v", ci, cl.returned, cl.connErr))
+			}
 			var want [][]byte
-			for _, s := range sentBy[ci] {
-				if s.frame >= f.Frame || s.raw {
-					break
-				}
-				want = append(want, s.payload)
+			if len(ref) > 0 {
+				want = nonPong(ref[1:])
 			}
 			got := nonPong(cl.got)
-			// pongs are also frames: a fault in a pong frame still kills the stream; handled by frame index
 			if d := seqDiff(want, got); d != "" {
-				w.Violate("C11.d-s2c", "C11.d|"+tag, fmt.Sprintf("after %s in s2c frame %d (%s): client %d %s", f.Kind, f.Frame, f.Region, ci, d))
+				w.Violate("C11.d-s2c", "C11.d|"+tag, fmt.Sprintf("after %s in s2c frame %d (%s): client %d vs reference receiver on the same bytes: %s", f.Kind, f.Frame, f.Region, ci, d))
 			}
 		} else {
-			// c2s altered: the spec server must see exactly the frames before it; checks the client's framing from the other side
-			if st != nil {
-				if f.Frame == 0 {
-					if st.hsErr == nil && st.sess != nil {
-						w.Violate("C11.d-c2s", "C11.d|"+tag+"|hs-accepted", "server accepted an altered handshake")
-					}
-				} else {
-					// client frames: frame 0 handshake, then sends and pings in write order
-					k := len(st.received)
-					if k > len(cl.sentOK) {
-						w.Violate("C11.d-c2s", "C11.d|"+tag, fmt.Sprintf("server extracted %d payloads, client sent %d", k, len(cl.sentOK)))
-					} else if d := seqDiff(cl.sentOK[:k], st.received); d != "" {
-						w.Violate("C11.d-c2s", "C11.d|"+tag, "server extracted a payload that was never sent: "+d)
-					}
-					if st.frames != f.Frame-1 {
-						w.Violate("C11.d-c2s", "C11.d|"+tag+"|count", fmt.Sprintf("fault in client frame %d: server extracted %d frames, want exactly %d", f.Frame, st.frames, f.Frame-1))
-					}
-					if st.frErr == nil && st.hsErr == nil && c.Frames(core.C2S) > f.Frame {
-						// the altered frame was consumed without an error: only legitimate if bytes are still missing (e.g. enlarged length)
-						w.Probe("c2s-fault-no-error-yet")
-					}
+			// c2s altered: the spec server is the receiver. It must never extract a payload that was not sent,
+			// and everything before the altered frame must have arrived (checks the client's framing from the other side).
+			if st != nil && f.Frame > 0 {
+				k := len(st.received)
+				if k > len(cl.sentOK) {
+					w.Violate("C11.d-c2s", "C11.d|"+tag, fmt.Sprintf("server extracted %d payloads, client sent %d", k, len(cl.sentOK)))
+				} else if d := seqDiff(cl.sentOK[:k], st.received); d != "" {
+					w.Violate("C11.d-c2s", "C11.d|"+tag, "server extracted a payload that was never sent: "+d)
+				}
+				if st.frames < f.Frame-1 {
+					w.Violate("C11.d-c2s", "C11.d|"+tag+"|count", fmt.Sprintf("fault in client frame %d: server extracted only %d frames before it", f.Frame, st.frames))
 				}
 			}
 		}
